@@ -184,6 +184,14 @@ def base(ci, which=("L1", "L2", "L3", "L4a", "L5", "L5d", "L6", "L6v")):
     return hyps
 
 
+def base_noregion(ci, which=("L1", "L2", "L3", "L4a", "L5", "L5d", "L6", "L6v")):
+    hyps = T.base_axioms() + T.child_laws(which) + litkey_facts()
+    inv = CLASS_INV.get(ci.name)
+    if inv:
+        hyps += inv(SELF)
+    return hyps
+
+
 def extra_region(ci, law):
     """region hypotheses that apply to one law only"""
     return [h for ent in REGIONS.get(ci.name, []) if len(ent) > 3 and ent[3] is not None and law in ent[3] for h in ent[2]()]
